@@ -585,6 +585,19 @@ def run(fx, rep, tier):
             for o in s7.obls:
                 o["rule"] = "C01-R7"
                 sub.obls.append(o)
+        if cfg == "dev":
+            sub.rule("C01-R8", "every operator mix is grouped as the grammar prescribes before it is folded: precedence and left "
+                               "associativity of the operator stack (inductive, shared with C06-R6)")
+            from . import c06
+            s8 = type(rep)(rep.prop, rep.tier)
+            pr = c06.priorities(facts)
+            if pr is not None:
+                c06.r6_stack(facts, s8, pr, "quick")
+            else:
+                s8.ob("C01-R8", "anchor:op", False, "grammar::operation::op could not be analysed")
+            for o in s8.obls:
+                o["rule"] = "C01-R8"
+                sub.obls.append(o)
         if sub is not rep:
             for o in sub.obls:
                 o["key"] += "[rel]"
